@@ -198,7 +198,10 @@ SOH_TRUST = ["Model/SOH.lean is a hand-written model of SearchableObjectHolder.h
              "specification assumes of a sorted unique-key map and of reference counting (checked on every run by trace acceptance "
              "and by the ASan/UBSan build, not proved)",
              "harness/clients/soh.cpp: traced payload (destructor event), predicate functor (invocation events, scheduling "
-             "points, fault injection), caller-side reference bookkeeping"]
+             "points, fault injection), type tag whose comparison is a scheduling point, caller-side reference bookkeeping, "
+             "plain-access tap on objectMap / typeMap and on their tree nodes (nodes are recognised by their allocation size "
+             "while the allocating thread is inside a holder call); accesses made inside libstdc++.so (tree rebalancing, "
+             "iterator increment) and by memcmp on the keys are not seen by the tap"]
 SOH_ASSUME = ["std::mutex behaves as the acquire/release semantics of the model",
               "object ids given to addObject are fresh (client obligation, checked by the model)",
               "no call is started after the holder's destructor has finished (client obligation, checked by the model); calls "
@@ -209,12 +212,14 @@ SOH_TIE = (" The model is tied to the source on every run: the unmodified header
            "malformed sequences; 2-4 threads colliding on a 3-4 name x 3 type domain; destructor racing with the last calls; "
            "predicates id==k / always / never / throwing at the j-th invocation, each invocation a scheduling point inside the "
            "critical section) and every trace must be accepted by the model's step function, i.e. every result, every predicate "
-           "invocation and every payload destruction must be exactly what the specification and the ledger allow, with all 58 "
-           "model edges covered. The same runs are repeated on an ASan+UBSan build of the client.")
+           "invocation, every payload destruction and every plain access to the two std::map objects and their tree nodes "
+           "(plain-access tap) must be exactly what the specification, the ledger and the lock discipline allow, with all 61 "
+           "model edges covered (58 in the sanitizer build, which has no tap) and every line / member function of the header "
+           "executed. The same runs are repeated on an ASan+UBSan build of the client.")
 
 
 def register(PROPS, COMPONENTS):
-    COMPONENTS["soh"] = dict(client="soh", driver="soh", tap=True, directed_runs=4, quick_runs=4000, thorough_runs=60000,
+    COMPONENTS["soh"] = dict(client="soh", driver="soh", tap=True, cov_headers=["gmlc/concurrency/SearchableObjectHolder.hpp"], directed_runs=4, quick_runs=4000, thorough_runs=60000,
                              oracle=oracle_soh)
     COMPONENTS["soh-asan"] = dict(client="soh", driver="soh-notap", directed_runs=3, quick_runs=2000, thorough_runs=30000,
                                   oracle=oracle_soh,
@@ -232,7 +237,9 @@ def register(PROPS, COMPONENTS):
                    "exactly the results the callers received and end in the current maps (linearizability as an inductive "
                    "invariant); the linearisation point lies between call and return; the history is append-only; only the "
                    "linearisation step changes the maps; mutual exclusion; the lock is held exactly inside critical sections "
-                   "(never leaked); the holder is never blocked and its critical section is bounded; deadlock-freedom. "
+                   "(never leaked); every accepted plain access to the maps is made by the lock holder, so two threads are "
+                   "never both in a position to touch them (data-race-freedom of the maps); the holder is never blocked and "
+                   "its critical section is bounded; deadlock-freedom. "
                    "(3) Reference ledger: the payload destructor is accepted only when no map entry and no caller-held "
                    "reference refers to the object, hence in every reachable state every stored or caller-held object is "
                    "alive, a returned object is owned by the caller from the linearisation point until its own release "
